@@ -6,7 +6,7 @@
 use std::path::PathBuf;
 use std::time::Duration;
 
-use uiua::{Assembly, Compiler, SafeSys, Uiua, Value};
+use uiua::{Assembly, BindingKind, Compiler, Node, SafeSys, Uiua, Value};
 use uvh::*;
 
 const MARKERS: [&str; 10] = [
@@ -144,6 +144,94 @@ fn compile(src: &str) -> Option<Assembly> {
     })
     .ok()
     .flatten()
+}
+
+// ---------------------------------------------------------------- marks of re-read constants
+
+/// comparisons of adjacent rows (0 less, 1 equal, 2 greater), as the reader's scan sees them
+fn adjacent_cmps(v: &Value) -> Vec<u8> {
+    if v.rank() == 0 {
+        return vec![];
+    }
+    let rows: Vec<Value> = v.rows().collect();
+    rows.windows(2)
+        .map(|w| match w[0].cmp(&w[1]) {
+            std::cmp::Ordering::Less => 0,
+            std::cmp::Ordering::Equal => 1,
+            std::cmp::Ordering::Greater => 2,
+        })
+        .collect()
+}
+
+/// a re-read value must be well formed and carry exactly the truthful sortedness marks, at every depth
+fn marks_truthful(v: &Value, path: &str) -> Result<(), String> {
+    let cs = adjacent_cmps(v);
+    let (up, down) = (cs.iter().all(|c| *c != 2), cs.iter().all(|c| *c != 0));
+    let (_, fu, fd) = uiua::verif::flags(v);
+    if v.rank() > 0 && (fu, fd) != (up, down) {
+        return Err(format!("{path}: marks (sorted up {fu}, sorted down {fd}) but the rows are (up {up}, down {down}): {}", describe(v)));
+    }
+    if let Value::Box(a) = v {
+        for (i, b) in a.elements().enumerate() {
+            marks_truthful(&b.0, &format!("{path}[{i}]"))?;
+        }
+    }
+    Ok(())
+}
+
+fn walk_node(n: &Node, f: &mut dyn FnMut(&Value)) {
+    match n {
+        Node::Run(ns) => {
+            for x in ns.iter() {
+                walk_node(x, f)
+            }
+        }
+        Node::Push(v) => f(v),
+        Node::Array { inner, .. } => walk_node(inner, f),
+        Node::Mod(_, args, _) | Node::ImplMod(_, args, _) => {
+            for a in args.iter() {
+                walk_node(&a.node, f)
+            }
+        }
+        Node::Switch { branches, .. } => {
+            for a in branches.iter() {
+                walk_node(&a.node, f)
+            }
+        }
+        Node::NoInline(inner) => walk_node(inner, f),
+        Node::TrackCaller(inner) => walk_node(&inner.node, f),
+        Node::CustomInverse(ci, _) => {
+            if let Ok(sn) = &ci.normal {
+                walk_node(&sn.node, f)
+            }
+            for sn in ci.un.iter().chain(ci.anti.iter()) {
+                walk_node(&sn.node, f)
+            }
+            if let Some((a, b)) = &ci.under {
+                walk_node(&a.node, f);
+                walk_node(&b.node, f);
+            }
+        }
+        _ => {}
+    }
+}
+
+/// every constant of an assembly: push nodes of the root and of the functions, constant bindings
+fn constants(asm: &Assembly) -> Vec<Value> {
+    let mut vs = Vec::new();
+    let mut f = |v: &Value| vs.push(v.clone());
+    walk_node(&asm.root, &mut f);
+    for n in asm.functions.iter() {
+        walk_node(n, &mut f);
+    }
+    for b in asm.bindings.iter() {
+        match &b.kind {
+            BindingKind::Const(Some(v)) => f(v),
+            BindingKind::CodeMacro(n) => walk_node(n, &mut f),
+            _ => {}
+        }
+    }
+    vs
 }
 
 // ---------------------------------------------------------------- framing (classification only)
@@ -468,6 +556,7 @@ fn fixed_programs() -> Vec<String> {
         "⊂ 1",
         "246.94165062806206",
         "⍤\"boom\" 0",
+        "Scores ← [70 95 80 60 85]\nBonus ← +5⌊⚂\nRanked ← ⇌⍆+\nRanked Bonus Scores\n/↥+Bonus Scores\n⊢⍏+Bonus Scores",
         "⍤\"fine\" 1",
         "Foo ← map [1 2] [3 4]\n⊂Foo Foo",
         "÷∞ ∞",
@@ -506,6 +595,30 @@ fn directed_programs() -> Vec<(String, String)> {
                 v.push((format!("directed-tomb#{n}-{kn}-{k}"), src));
             }
         }
+    }
+    v
+}
+
+/// directed family: array constants (unsorted, sorted up, sorted down, with ties; numbers, bytes,
+/// characters, boxes, complex; rank 1-2) that survive into the assembly because the line that uses
+/// them also pops an impure value, consumed by the primitives that trust the sortedness marks
+fn directed_marks_programs() -> Vec<(String, String)> {
+    let arrays = [
+        "[70 95 80 60 85]", "[1 2 3 4 5]", "[9 7 5 3 1]", "[3 3 1 3 3]", "[2 2 2 2]", "[1 2 3 2 1]", "[3 2 1 2 3]", "[1 1 2 1]", "[2 2 1 2]", "[0.5 ¯1 300 2.5]", "[1 NaN 0 2]", "[NaN 1 2 0]",
+        "[1 0 1 1 0]", "[0 0 1 0]", "\"hello\"", "\"abcde\"", "\"edcba\"", "\"aabaa\"", "{\"b\" \"a\" \"c\"}", "{1 \"a\" [2 3]}", "{3 2 1 2}", "[[3 1][2 2][1 3]]", "[[1 1][1 2][2 0]]",
+        "[[1 2][1 2][0 5]]", "[[1 2][3 4][5 0][1 1]]", "[\"ab\" \"ba\" \"aa\"]", "[ℂ1 2 ℂ3 0 ℂ0 5]", "[ℂ0 1 ℂ0 2 ℂ0 0]",
+    ];
+    let consumers = [
+        "⍆", "⍏", "⍖", "/↥", "/↧", "⊢⍏", "⊣⍖", "⊢⍖", "⊣⍏", "◴", "⊛", "⊢", "⊣", "⇌⍆", "/↥⇌", "⍆⊂⊸⊢", "⍆⊂⟜⊣", "▽⊸≥0", "⍆↙3", "⍆↘1", "⊏⊸⍏", "/↥+1", "⍆×¯1", "⍆¯",
+    ];
+    let mut v = Vec::new();
+    for (i, a) in arrays.iter().enumerate() {
+        for (j, c) in consumers.iter().enumerate() {
+            v.push((format!("directed-marks#{i}-{j}"), format!("X ← {a}\n{c} ◌⌊⚂ X")));
+        }
+        v.push((format!("directed-marks#{i}-member"), format!("X ← {a}\n∊ X ⇌ ◌⌊⚂ X\n⊗ X ⇌ ◌⌊⚂ X")));
+        v.push((format!("directed-marks#{i}-fn"), format!("X ← {a}\nB ← +⌊⚂\nF ← ⇌⍆B\nF X\n/↥B X\n⊢⍏B X\n⊢⍖B X")));
+        v.push((format!("directed-marks#{i}-inline"), format!("⍆ ◌⌊⚂ {a}\n⍏ ◌⌊⚂ {a}\n□{a}\n⍆°□ ◌⌊⚂ □{a}")));
     }
     v
 }
@@ -569,6 +682,8 @@ struct Stats {
     run_errors: usize,
     with_output: usize,
     node_differs_benign: usize,
+    constants: usize,
+    orig_malformed: usize,
     nondeterministic: usize,
     text_fixpoint_differs: usize,
     violations: usize,
@@ -606,6 +721,29 @@ fn check_program(name: &str, src: &str, argsets: &[Vec<Value>], st: &mut Stats) 
         }
     };
     st.reread_ok += 1;
+    // the constants of the re-read assembly: well formed, and marked exactly as their rows are
+    let orig_consts = constants(&asm);
+    let new_consts = constants(&asm2);
+    if orig_consts.len() != new_consts.len() {
+        report(st, "uasm-reread-constant-count", name, src, "the re-read assembly has another number of constants", &format!("{} vs {}", orig_consts.len(), new_consts.len()));
+    }
+    for (i, c) in new_consts.iter().enumerate() {
+        st.constants += 1;
+        // a constant that is already malformed in the original assembly is not the reader's doing (C05/C16)
+        let orig_ok = orig_consts.get(i).map(|o| catch(|| uiua::verif::check_value(o)).map(|r| r.is_ok()).unwrap_or(false)).unwrap_or(true);
+        if !orig_ok {
+            st.orig_malformed += 1;
+            continue;
+        }
+        if let Err(e) = catch(|| uiua::verif::check_value(c)).unwrap_or_else(|p| Err(format!("check_value panics: {p}"))) {
+            report(st, "uasm-reread-constant-malformed", name, src, "a constant of the re-read assembly is not a well-formed value", &format!("constant #{i}: {e}"));
+            break;
+        }
+        if let Err(e) = marks_truthful(c, &format!("constant #{i}")) {
+            report(st, "uasm-reread-marks-wrong", name, src, "a constant of the re-read assembly carries sortedness marks that are not the truthful ones", &e);
+            break;
+        }
+    }
     let mut differs = false;
     for args in argsets {
         let a = run_asm_with(&asm, args);
@@ -696,6 +834,22 @@ fn mapped(r: &mut Rng, cfg: &GenCfg, v: &Value) -> Option<Value> {
     };
     let _ = cfg;
     run_uiua_with("map", &[v.clone(), keys]).ok().and_then(|mut s| s.pop())
+}
+
+fn marks_record(v: &Value) -> String {
+    let (_, up, down) = uiua::verif::flags(v);
+    let check = match catch(|| uiua::verif::check_value(v)) {
+        Ok(Ok(())) => "ok".to_string(),
+        Ok(Err(e)) => e,
+        Err(p) => format!("check_value panics: {p}"),
+    };
+    format!(
+        "{{\"cs\":{:?},\"up\":{up},\"down\":{down},\"rank\":{},\"check\":{},\"deep\":{}}}",
+        adjacent_cmps(v),
+        v.rank(),
+        jstr(&check),
+        jstr(&marks_truthful(v, "v").err().unwrap_or_default())
+    )
 }
 
 fn val_record(v: &Value) -> String {
@@ -810,12 +964,16 @@ fn tie_values(r: &mut Rng, n: usize) {
             }
         };
         let back = catch(|| serde_json::from_str::<Value>(&text));
+        let mut marks = "null".to_string();
         let b = match back {
-            Ok(Ok(v2)) => val_record(&v2),
+            Ok(Ok(v2)) => {
+                marks = marks_record(&v2);
+                val_record(&v2)
+            }
             Ok(Err(e)) => format!("{{\"err\":{}}}", jstr(&e.to_string())),
             Err(p) => format!("{{\"err\":{}}}", jstr(&format!("PANIC {p}"))),
         };
-        println!("{{\"i\":{i},\"val\":{},\"json\":{},\"back\":{}}}", val_record(v), jstr(&text), b);
+        println!("{{\"i\":{i},\"val\":{},\"json\":{},\"back\":{},\"marks\":{marks}}}", val_record(v), jstr(&text), b);
     }
     // texts that no serialiser wrote: the reader's variant choice on its own
     let extra = [
@@ -981,6 +1139,21 @@ fn main() {
             };
             let text = asm.to_uasm();
             println!("{text}\n-----");
+            for (i, c) in constants(&asm).iter().enumerate() {
+                if let Err(e) = uiua::verif::check_value(c) {
+                    println!("ORIGINAL constant #{i} malformed: {e}: {}", describe(c));
+                }
+            }
+            if let Ok(Ok(a2)) = catch(|| Assembly::from_uasm(&text)) {
+                for (i, c) in constants(&a2).iter().enumerate() {
+                    if let Err(e) = uiua::verif::check_value(c) {
+                        println!("REREAD constant #{i} malformed: {e}: {} json {}", describe(c), serde_json::to_string(c).unwrap_or_default());
+                    }
+                    if let Err(e) = marks_truthful(c, "c") {
+                        println!("REREAD constant #{i} marks: {e}");
+                    }
+                }
+            }
             match catch(|| Assembly::from_uasm(&text)) {
                 Ok(Ok(a2)) => {
                     let a = run_asm_with(&asm, &[]);
@@ -996,12 +1169,12 @@ fn main() {
         "search" => {
             let n: usize = std::env::args().nth(2).and_then(|s| s.parse().ok()).unwrap_or(100);
             let corpus = arg_usize("--corpus", 1) == 1;
-            let mut st = Stats { programs: 0, compiled: 0, reread_ok: 0, runs: 0, run_errors: 0, with_output: 0, node_differs_benign: 0, nondeterministic: 0, text_fixpoint_differs: 0, violations: 0 };
+            let mut st = Stats { programs: 0, compiled: 0, reread_ok: 0, runs: 0, run_errors: 0, with_output: 0, node_differs_benign: 0, constants: 0, orig_malformed: 0, nondeterministic: 0, text_fixpoint_differs: 0, violations: 0 };
             for (i, p) in fixed_programs().iter().enumerate() {
                 let argsets = vec![vec![], gen_args(&mut r), gen_args(&mut r)];
                 check_program(&format!("fixed#{i}"), p, &argsets, &mut st);
             }
-            for (name, p) in directed_programs() {
+            for (name, p) in directed_programs().into_iter().chain(directed_marks_programs()) {
                 check_program(&name, &p, &[vec![]], &mut st);
             }
             let fixed = st.programs;
@@ -1018,8 +1191,8 @@ fn main() {
                 check_program(&format!("gen#{i}"), &p, &argsets, &mut st);
             }
             println!(
-                "{{\"summary\":true,\"programs\":{},\"fixed\":{fixed},\"corpus\":{corpus_n},\"generated\":{n},\"compiled\":{},\"reread_ok\":{},\"runs\":{},\"run_errors\":{},\"with_output\":{},\"node_differs_benign\":{},\"nondeterministic\":{},\"text_fixpoint_differs\":{},\"violations\":{}}}",
-                st.programs, st.compiled, st.reread_ok, st.runs, st.run_errors, st.with_output, st.node_differs_benign, st.nondeterministic, st.text_fixpoint_differs, st.violations
+                "{{\"summary\":true,\"programs\":{},\"fixed\":{fixed},\"corpus\":{corpus_n},\"generated\":{n},\"compiled\":{},\"reread_ok\":{},\"runs\":{},\"run_errors\":{},\"with_output\":{},\"node_differs_benign\":{},\"constants_checked\":{},\"constants_malformed_already_in_the_original\":{},\"nondeterministic\":{},\"text_fixpoint_differs\":{},\"violations\":{}}}",
+                st.programs, st.compiled, st.reread_ok, st.runs, st.run_errors, st.with_output, st.node_differs_benign, st.constants, st.orig_malformed, st.nondeterministic, st.text_fixpoint_differs, st.violations
             );
         }
         "tie-values" => {
